@@ -35,6 +35,8 @@ struct Sol : public squids::SQuIDS {
   double InteractionsScalar(unsigned, unsigned, double) const override { return 0.01; }
   void fill() { for (unsigned ix = 0; ix < nx; ix++) { for (unsigned ir = 0; ir < nrhos; ir++) for (int k = 0; k < d * d; k++) state[ix].rho[ir][k] = 0.1 + 0.01 * k; for (unsigned is = 0; is < nscalars; is++) state[ix].scalar[is] = 1.0; } }
   unsigned NX() const { return nx; } unsigned NR() const { return nrhos; }
+  // the mixing parameters are a member derived classes use (Const params)
+  void touch_params() { params.SetMixingAngle(0, 1, 0.3); params.SetPhase(0, 1, 0.1); auto U = params.GetTransformationMatrix((size_t)d); (void)U; }
 };
 static void warmup() {
   // thread-local scratch (expectation-value buffers, matrix holders) is created once per thread and lives until the thread ends
@@ -246,7 +248,7 @@ void run_case(ByteSource& s, CaseInfo& ci) {
         case 39: { int k = (int)s.choose(2); unsigned nx = 1 + s.choose(5), d = (unsigned)gen_dim(s), nr = 1 + s.choose(2), ns = s.choose(3); double ti = s.flag() ? 0 : 1.5;
                    if (sol[k] && s.flag()) { sol[k]->ini(nx, d, nr, ns, ti); sol[k]->d = (int)d; } else sol[k].reset(new Sol(nx, d, nr, ns, ti));
                    if (nx >= 2) sol[k]->Set_xrange(1.0, 10.0, s.flag() ? "linear" : "log"); else sol[k]->Set_xrange(1.0, 1.0, "linear");
-                   sol[k]->fill(); break; }
+                   sol[k]->fill(); sol[k]->touch_params(); break; }
         case 40: {  // grids, valid and invalid
           int k = (int)s.choose(2); if (!sol[k]) break; unsigned nx = sol[k]->NX(); if (nx < 2) break;
           switch (s.choose(5)) { case 0: sol[k]->Set_xrange(1e-12, 1.0, "log"); break; case 1: sol[k]->Set_xrange(0.0, 1.0, "cubic"); break;
@@ -275,7 +277,9 @@ void run_case(ByteSource& s, CaseInfo& ci) {
         }
         case 42: {  // expectation values, inside and outside the grid
           int k = (int)s.choose(2); if (!sol[k]) break;  // (a solver with a single node is a solver too: x=1 is its node)
-          SU_vector o(sol[k]->d); o[1] = 1; o[0] = 0.5; unsigned ir = s.choose(sol[k]->NR());
+          // (tail byte) sometimes the operator has another dimension than the solver: every query must reject it before touching anything
+          int od = sol[k]->d; if (s.tail_at(44) % 5 == 1) { od = 2 + (od - 2 + 1 + (int)(s.tail_at(45) % 4)) % 5; ci.label("query-operator-of-another-dimension"); }
+          SU_vector o(od); o[1] = 1; o[0] = 0.5; unsigned ir = s.choose(sol[k]->NR());
           std::vector<bool> avr(sol[k]->d * (sol[k]->d - 1) / 2);
           double x = (double[]){1.0, 5.5, 10.0, 0.5, 11.0, -INFINITY}[s.choose(6)];
           squids::SQuIDS::expectationValueDBuffer ub(sol[k]->d);
@@ -285,8 +289,15 @@ void run_case(ByteSource& s, CaseInfo& ci) {
           break;
         }
         case 43: { int k = (int)s.choose(2); if (!sol[k]) break; double x = (double[]){1.0, 3.3, 10.0, 0.0, 12.0}[s.choose(5)]; volatile unsigned r = sol[k]->Get_i(x); (void)r; break; }
-        case 44: { if (!sol[0]) break; std::unique_ptr<Sol> n(new Sol(std::move(*sol[0]))); sol[0].reset(); sol[1] = std::move(n); break; }  // move construct, old destroyed
-        case 45: { if (!sol[0] || !sol[1]) break; *sol[1] = std::move(*sol[0]); sol[0].reset(); break; }                                                                   // move assign
+        // (tail byte) the moved-from solver is either destroyed or re-initialised and used again: after ini() it is a complete object
+        case 44: { if (!sol[0]) break; std::unique_ptr<Sol> n(new Sol(std::move(*sol[0]))); bool reuse = s.tail_at(46) % 3 == 1;
+                   if (reuse) { unsigned d = (unsigned)gen_dim(s); sol[0]->ini(2, d, 1, 0, 0.0); sol[0]->d = (int)d; sol[0]->Set_xrange(1.0, 10.0, "linear"); sol[0]->fill(); sol[0]->touch_params(); ci.label("moved-from-solver-reinitialised"); }
+                   else sol[0].reset();
+                   sol[1] = std::move(n); break; }
+        case 45: { if (!sol[0] || !sol[1]) break; *sol[1] = std::move(*sol[0]); bool reuse = s.tail_at(46) % 3 == 1;
+                   if (reuse) { unsigned d = (unsigned)gen_dim(s); sol[0]->ini(2, d, 1, 0, 0.0); sol[0]->d = (int)d; sol[0]->Set_xrange(1.0, 10.0, "linear"); sol[0]->fill(); sol[0]->touch_params(); ci.label("moved-from-solver-reinitialised"); }
+                   else sol[0].reset();
+                   break; }
         case 46: { int k = (int)s.choose(2); sol[k].reset(); break; }
         default: { int i = pickv(2); if (i < 0) break; int q = (int)s.choose(v[i].d * v[i].d); (*v[i].v)[q] = 0.75; break; }
       }
@@ -343,6 +354,25 @@ void regressions() {
   }
   SU_vector::clear_mem_cache();
   CHECK(ledger::live_blocks() == live0, "C15|blocks-not-released-at-quiescence", "regression: exception paths for dimension-0 operands leaked %ld block(s)", (long)ledger::live_blocks() - (long)live0);
+  // e6bfd36: the averaging queries with an operator of another dimension (ASan: heap-buffer-overflow before the exception)
+  {
+    Sol s4(3, 2, 1, 0, 0.0); s4.Set_xrange(1.0, 3.0, "linear"); s4.fill();
+    std::vector<bool> avr(15); squids::SQuIDS::expectationValueDBuffer ub(2);
+    for (int od : {3, 6}) {
+      SU_vector o(od); o[1] = 1; int raised = 0;
+      try { s4.GetExpectationValue(o, 0, 1, 0.5, avr); } catch (const std::exception&) { raised++; }
+      try { s4.GetExpectationValueD(o, 0, 1.5, 0.5, avr); } catch (const std::exception&) { raised++; }
+      try { s4.GetExpectationValueD(o, 0, 1.5, ub, 0.5, avr); } catch (const std::exception&) { raised++; }
+      CHECK(raised == 3, "C15|averaged-query|operator-of-another-dimension-not-rejected", "regression: operator dimension %d on a 2-level solver, %d of 3 queries raised", od, raised);
+    }
+  }
+  // 27f2eec: a moved-from solver that is initialised again is a complete object (its mixing parameters were left without tables)
+  {
+    Sol s5(2, 3, 1, 0, 0.0); Sol s6(std::move(s5));
+    s5.ini(2, 2, 1, 0, 0.0); s5.d = 2; s5.Set_xrange(1.0, 2.0, "linear"); s5.fill(); s5.touch_params();
+    Sol s7(2, 2, 1, 0, 0.0); s7 = std::move(s6);
+    s6.ini(2, 4, 1, 0, 0.0); s6.d = 4; s6.touch_params();
+  }
   // 715c5d6: interpolating queries on a one-node solver read x[1] / state[1] (ASan: heap-buffer-overflow)
   {
     Sol s1(1, 3, 1, 0, 0.0); s1.Set_xrange(1.0, 1.0, "linear"); s1.fill();
